@@ -54,10 +54,11 @@ def step (s : St) (ts : List String) : St × List String :=
     | some m => (St.mf m, [s!"ok {m.P}"])
     | Option.none => (St.none, ["invalid_argument"])
   | _ =>
-    match s with
-    | St.none => (s, ["no-field"])
-    | St.zp p tbl => (s, stepZp p tbl ts)
-    | St.mf m => (s, stepMf m ts)
+    match s, ts with
+    | St.none, _ => (s, ["no-field"])
+    | _, ["xfer", _] => (s, ["ok"])   -- copy / move / assignment / swap of the operator object: the field is unchanged
+    | St.zp p tbl, _ => (s, stepZp p tbl ts)
+    | St.mf m, _ => (s, stepMf m ts)
 
 def main (_args : List String) : IO Unit := do
   let lines ← readLines (← IO.getStdin) #[]
